@@ -73,12 +73,29 @@ func ReplayOn(c Combo, ops []Op, history []int, sharedBase b6.World) (*Sys, erro
 		return nil, err
 	}
 	for _, i := range history {
-		if err := s.W.AddFeature(ops[i].F.Make()); err != nil {
+		if err := s.Apply(ops[i]); err != nil {
 			return nil, fmt.Errorf("replay diverged: %s rejected on replay: %v", ops[i].Name, err)
 		}
-		s.Model[ops[i].F.ID] = ops[i].F
 	}
 	return s, nil
+}
+
+// Apply makes the op's call on the real world (with fresh argument values) and,
+// when it is accepted, keeps the model in step. Tag edits do not touch
+// geometry, so the (geometry and membership) model is unchanged by them; the
+// tags themselves are part of the private state and of the dump.
+func (s *Sys) Apply(op Op) error {
+	if t := op.Tag; t != nil {
+		if t.Remove {
+			return s.W.RemoveTag(t.ID, t.Key)
+		}
+		return s.W.AddTag(t.ID, b6.Tag{Key: t.Key, Value: b6.NewStringExpression(t.Value)})
+	}
+	if err := s.W.AddFeature(op.F.Make()); err != nil {
+		return err
+	}
+	s.Model[op.F.ID] = op.F
+	return nil
 }
 
 // Residency of an ID for classification: where the feature an op replaces lives.
@@ -110,6 +127,7 @@ func queries() []wk.NamedQuery {
 		{Name: "keyed(#highway)", Query: b6.Keyed{Key: "#highway"}},
 		{Name: "tagged(#amenity=cafe)", Query: b6.Tagged{Key: "#amenity", Value: b6.NewStringExpression("cafe")}},
 		{Name: "tagged(#place=x)", Query: b6.Tagged{Key: "#place", Value: b6.NewStringExpression("x")}},
+		{Name: "keyed(#shop)", Query: b6.Keyed{Key: "#shop"}},
 		{Name: "typed(path,all)", Query: b6.Typed{Type: b6.FeatureTypePath, Query: b6.All{}}},
 		{Name: "typed(area,keyed(#building))", Query: b6.Typed{Type: b6.FeatureTypeArea, Query: b6.Keyed{Key: "#building"}}},
 		{Name: "cap(200m)", Query: b6.NewIntersectsCapFromCenterAndRadiusMeters(center, 200)},
